@@ -161,6 +161,11 @@ BOUNDARY = [
     "5 m^-0", "5 m^0", "5 m⁰", "5 1", "1", "11", "1 1", "5 (m)", "5 m)", "(", ")", "°", "°C", "5 °C", "5 °", "5 .", ". m", "5 ft.", "5 ft..", "5 Ω", "5 μm", "5 µm", "5 µ", "5 Å", "5 Å",
     "5 m\x00", "\x005 m", "5 m", "5 m", "５ m", "5 m²⋅A³/s^3", "5 m²A³s⁻³", "m" * 5000, "5 " + "m " * 3000, "5 " + "m*" * 3000 + "m", "5 m^" + "9" * 40,
     "9" * 400 + " m", "5 m" + "²" * 300, "5 " + "/".join(["m"] * 50), "1e5", "e5 m", "5e5", "5 e5", "5 E", "0x10 m", "1_000 m", "5 m^2^2", "5 m²^2", "5 m^2²",
+    # exponents at the edge of what int() accepts (4300 digits) times a prefix exponent, mixed bases
+    "km^" + "4" * 4300 + "⋅KiB", "KiB/km^" + "7" * 4299, "5 Mm^" + "3" * 4200 + " B", "km^" + "9" * 4300 + "*KiB", "2 kB^" + "9" * 4300, "KiB^" + "1" * 4300 + "/km",
+    # 308-digit exponents: a float prefix exponent becomes inf, and inf - inf is nan, before another base joins
+    "kB^2" + "0" * 307 + "⋅km^-2" + "0" * 307, "1.5 kB^2" + "0" * 307 + "*km^-2" + "0" * 307, "kB^2" + "0" * 307 + "⋅kB^-2" + "0" * 307 + "⋅km",
+    "MB^15" + "0" * 306 + "/MB^15" + "0" * 306 + "*KiB", "kB^17" + "9" * 306, "3 kB^-2" + "0" * 307 + " km^2" + "0" * 307,
     "km*B^1" + "0" * 400, "B^1" + "0" * 400 + "*km", "km/B^1" + "0" * 400, "KiB*km^1" + "0" * 400, "5 km/B^-1" + "0" * 400, "KiB^10000000*km",
     "km/KiB^10000000", "3.5 ms*MiB" + "⁹" * 350, "m/kB^-" + "9" * 400, "Mb^7" + "0" * 309 + "/Kib",
     "dB^" + "9" * 400, "kB^" + "9" * 400, "kB" + "⁹" * 400, "5 kB^-" + "9" * 330, "kB^" + "9" * 310, "MiB^1" + "0" * 320, "kB^" + "9" * 30,
